@@ -703,6 +703,7 @@ func runC08(r *simkit.R) {
 	pendingArm := map[int]int{}   // object already past its own expiration when the lock was acknowledged -> lock; armed by the next successful Get
 	lockAckAt := map[int]int{}    // object -> boundary counter when its lock was acknowledged
 	gcCheckAt := map[int]int{}    // object -> boundary counter of the last lock check made by the expired-objects handling
+	gcFirstCheckAt := map[int]int{}
 	gcDeleteAt := map[int]int{}   // object -> boundary counter of the last physical removal by the expired-objects handling
 	detached := map[int]bool{}    // shard index -> removed from the engine after its evacuation
 	nbound := 0
@@ -743,10 +744,12 @@ func runC08(r *simkit.R) {
 		}
 		if at, ok := gcDeleteAt[x]; ok && at > lockAckAt[x] && !partial[x] && !partialAny[x] {
 			// the expired-objects handling removed it physically after the lock was acknowledged
-			switch c, checked := gcCheckAt[x]; {
+			// (several shards' GCs may run the handling for the same object at once: a removal
+			// belongs to SOME earlier lock check of that object)
+			switch first, checked := gcFirstCheckAt[x]; {
 			case !checked:
 				diag = "the expired-objects handling removed it without any lock check"
-			case c > lockAckAt[x]:
+			case first > lockAckAt[x]:
 				diag = "the expired-objects handling removed it although its lock check ran after the lock was acknowledged"
 			default:
 				diag = "the lock was acknowledged between the lock check and the removal by the expired-objects handling"
@@ -821,6 +824,9 @@ func runC08(r *simkit.R) {
 						}
 					}
 					if f[1] == "islocked" && !byWorkload {
+						if _, ok := gcFirstCheckAt[x]; !ok {
+							gcFirstCheckAt[x] = nbound
+						}
 						gcCheckAt[x] = nbound
 					} else if f[1] == "delete" {
 						gcDeleteAt[x] = nbound
